@@ -139,6 +139,13 @@ wait:
 				if p := sh.Progress.Load(); p != last[i] {
 					last[i], since[i] = p, now
 				} else if now.Sub(since[i]) > limit && c.onStall != nil {
+					// keep what the finished shards of this phase observed (the handler writes the result and exits):
+					// violations seen before the stall still decide the run
+					for _, dsh := range shards {
+						if dsh.Done.Load() {
+							c.Col.Merge(dsh)
+						}
+					}
 					c.onStall(fmt.Sprintf("phase %s shard %d made no progress for %.0f s after %d evaluations (a library call does not return, or returns extremely slowly)", phase, i, now.Sub(since[i]).Seconds(), p))
 				}
 			}
